@@ -53,6 +53,60 @@ def run_all(ctx, binary, cases):
     return runs[0], verd, detail
 
 
+def hydro_replay(ctx, nproc=3):
+    """Hydro level: the build script of harness/h_hydro_b IS a Hydro compiler process -- for every corpus
+    flow of h_hydro_b_flows it runs the production path FlowBuilder -> finalize -> IR (serde JSON) ->
+    compile::ir::emit -> FlatGraphBuilder -> eliminate -> partition_graph -> generate_embedded (Rust code,
+    prettyplease text).  Run that executable in `nproc` separate processes (fresh hash seeds, ASLR,
+    different environment size) into separate OUT_DIRs and require byte-identical files."""
+    import glob
+    import hashlib
+    import shutil
+    info = {"status": "skipped"}
+    try:
+        ok, bindir, blog = vlib.cargo_build("h_hydro_b", "hydro", timeout=2400)
+    except Exception as e:  # the crate belongs to another engine
+        info["reason"] = "cargo_build failed: %s" % str(e)[:200]
+        return info, []
+    if not ok:
+        info["reason"] = "harness/h_hydro_b does not build"
+        return info, []
+    cands = glob.glob(os.path.join(os.path.dirname(bindir), "debug", "build", "h_hydro_b-*", "build-script-build"))
+    if not cands:
+        info["reason"] = "no build-script executable found"
+        return info, []
+    exe = max(cands, key=os.path.getmtime)
+    cdir = os.path.join(vlib.ROOT, "harness", "h_hydro_b") if vlib.REPO == "/repo" else \
+        os.path.join(vlib.WORK, "harness_alt", "h_hydro_b")
+    outs = []
+    for j in range(nproc):
+        od = os.path.join(ctx.workdir, "hydro_out_%d" % j)
+        shutil.rmtree(od, ignore_errors=True)
+        os.makedirs(od)
+        env = {"OUT_DIR": od, "CARGO_MANIFEST_DIR": cdir, "CARGO_PKG_NAME": "h_hydro_b",
+               "CARGO_CRATE_NAME": "build_script_build", "CARGO_PKG_VERSION": "0.0.0",
+               "TARGET": "x86_64-unknown-linux-gnu", "HOST": "x86_64-unknown-linux-gnu", "PROFILE": "debug",
+               "HV_PAD": "y" * (1231 * j + 7)}
+        rc, out = vlib.run([exe], cwd=cdir, env=env, timeout=900)
+        if rc != 0:
+            info["reason"] = "flow compiler process %d exited rc=%s" % (j, rc)
+            return info, []
+        files = {}
+        for f in sorted(os.listdir(od)):
+            files[f] = hashlib.sha1(open(os.path.join(od, f), "rb").read()).hexdigest()
+        outs.append(files)
+    diffs = []
+    for j in range(1, nproc):
+        for f in sorted(set(outs[0]) | set(outs[j])):
+            if outs[0].get(f) != outs[j].get(f):
+                diffs.append({"process": j, "file": f})
+    info = {"status": "ran", "processes": nproc, "files_per_process": len(outs[0]),
+            "generated_flow_code_files": len([f for f in outs[0] if f.endswith(".rs") and f not in
+                                              ("mods.rs", "drivers.rs", "dumps.rs")]),
+            "differences": len(diffs), "sha1_of_dumps_rs": outs[0].get("dumps.rs")}
+    return info, diffs
+
+
 def main(ctx):
     proof_fail = ["hygiene: " + p for p in vlib.hygiene()]
     ok, out = vlib.coq_make(["theories/Partition/Oracle.vo", "theories/Partition/FullO.vo"])
@@ -89,6 +143,13 @@ def main(ctx):
             cases = P.gen_programs(ctx.rng, ctx.tier, 220 if ctx.tier == "quick" else 1500, corpus="C18")
         ctx.log("compiling %d programs x4 in-process, x%d processes" % (len(cases), NPROC + 1))
         results, verd, detail = run_all(ctx, binary, cases)
+    hydro_info, hydro_diffs = ({"status": "skipped", "reason": "replay mode"}, []) if ctx.replay else hydro_replay(ctx)
+    ctx.log("hydro-level replay:", hydro_info)
+    if hydro_diffs:
+        path = vlib.write_replay(ctx, {"property": "C42", "kind": "property-fails-on-implementation",
+                                       "why": "Hydro flow compiler processes produced different files",
+                                       "differences": hydro_diffs, "hydro": hydro_info})
+        ctx.violations.append((path, ""))
     bad = [i for i, v in enumerate(verd) if v & 2]
     for i in bad[:3]:
         # shrink: keep "still differs"
@@ -164,8 +225,10 @@ def main(ctx):
                         "WHOLE executable partition model (the one C18 compares with every real output) returns the same "
                         "graph (C42_partition_model_oracle_independent); all other hash containers are keyed-access only "
                         "(scan compared with corpus/C42/hash_iteration_sites.json). as_code is not modelled. "
-                        "Not covered: Hydro (hydro_lang) flows and the content-hash naming of generated crates; "
-                        "memory-layout independence is only sampled through ASLR/allocator perturbation.") % NPROC,
+                        "Hydro level: the h_hydro_b flow compiler (FlowBuilder -> IR -> emit -> partition -> generate_embedded) "
+                        "is run in 3 processes on its 30 corpus flows and all emitted files must be byte-identical "
+                        "(skipped, and reported as such, if that harness does not build). Not covered: the content-hash "
+                        "naming of trybuild crates; memory-layout independence is only sampled through ASLR/allocator perturbation.") % NPROC,
         "obligations": pr["obligations"], "discharged": pr["discharged"],
         "checker_cmd": "make -C coq %s (coqc 8.16.1) + Print Assumptions allow-list" % PROPS_VO,
         "trusted_base": ["coqc 8.16.1 kernel", "harness/h_partition + tools/partition.py (comparison is byte equality of harness output)",
@@ -184,9 +247,10 @@ def main(ctx):
         "property_failures_on_impl": len(bad),
         "hash_iteration_sites": scan,
         "processes": NPROC + 1, "in_process_repetitions": 4,
+        "hydro_level_replay": hydro_info,
         "proof_failures": proof_fail, "correspondence_failures": corr_fail,
     }
     vlib.finish(ctx, "other", coverage,
                 ["std RandomState gives every HashMap a different key within a process and across processes",
                  "ASLR is enabled on the check machine (addresses differ between processes)",
-                 "Hydro-level (hydro_lang) compilation determinism is not exercised by this check"])
+                 "Hydro-level determinism is sampled on the fixed 30-flow corpus of harness/h_hydro_b only (IR JSON, flat graphs, embedded code)"])
